@@ -835,6 +835,101 @@ def sym_int(s):
     return symint(-val if neg else val)
 
 
+# ---------------------------------------------------------------------- float() model
+_FLOAT_MAX = 17976931348623157 * 10 ** 292          # largest finite double, as an integer
+
+
+def _digit_run(cs, j, d, concrete=False):
+    """digits with single underscores between them, from position j -> (value, count, next j);
+    value is an int / z3 Int term, or a concrete int when `concrete` (forks on every digit)"""
+    val = 0
+    n = 0
+    prev = False
+    while j < len(cs):
+        c = cs[j]
+        if mk(tobool(d.is_digit(c))):
+            dv = d.digit_val(c)
+            if concrete and not isinstance(dv, int):
+                k = 0
+                while not mk(dv == k):
+                    k += 1
+                dv = k
+            val = val * 10 + dv
+            n += 1
+            prev = True
+            j += 1
+        elif prev and j + 1 < len(cs) and mk(ceq(c, 95)) and mk(tobool(d.is_digit(cs[j + 1]))):
+            prev = False
+            j += 1
+        else:
+            break
+    return val, n, j
+
+
+def sym_float(s):
+    """Model of float(str): optional surrounding whitespace (the set int() strips), sign, 'inf' /
+    'infinity' / 'nan' in any case, or decimal digits (ASCII and the domain's other Nd digits, single
+    underscores between digits) with optional fraction and exponent.  The value is the EXACT rational
+    number the literal denotes (core.SymFloat); the exponent is made concrete by forking."""
+    if isinstance(s, str):
+        return float(s)
+    import fractions
+    d = core.ENG.domain
+    cs = s.cs
+    a, b = 0, len(cs)
+    while a < b and mk(tobool(d.is_int_space(cs[a]))):
+        a += 1
+    while b > a and mk(tobool(d.is_int_space(cs[b - 1]))):
+        b -= 1
+    t = simp(cs[a:b])
+    if isinstance(t, str):
+        return float(t)
+    cs = t.cs
+    bad = ValueError('could not convert string to float')
+    if not cs:
+        raise bad
+    i = 0
+    neg = False
+    if mk(zor([ceq(cs[0], 45), ceq(cs[0], 43)])):
+        neg = bool(mk(ceq(cs[0], 45)))
+        i = 1
+    rest = cs[i:]
+    for word, kind in (('inf', 'inf'), ('infinity', 'inf'), ('nan', 'nan')):
+        if len(rest) == len(word) and mk(zand([zor([ceq(c, ord(ch)), ceq(c, ord(ch.upper()))])
+                                               for c, ch in zip(rest, word)])):
+            return core.SymFloat('nan' if kind == 'nan' else ('ninf' if neg else 'inf'))
+    iv, ni, j = _digit_run(cs, i, d)
+    fv, nf = 0, 0
+    if j < len(cs) and mk(ceq(cs[j], 46)):
+        fv, nf, j = _digit_run(cs, j + 1, d)
+    if ni + nf == 0:
+        raise bad
+    ex = 0
+    if j < len(cs) and mk(zor([ceq(cs[j], 101), ceq(cs[j], 69)])):
+        j += 1
+        eneg = False
+        if j < len(cs) and mk(zor([ceq(cs[j], 45), ceq(cs[j], 43)])):
+            eneg = bool(mk(ceq(cs[j], 45)))
+            j += 1
+        ev, ne, j = _digit_run(cs, j, d, concrete=True)
+        if ne == 0:
+            raise bad
+        ex = -ev if eneg else ev
+    if j != len(cs):
+        raise bad
+    mant = iv * (10 ** nf) + fv
+    scale = fractions.Fraction(10) ** (ex - nf)
+    if isinstance(mant, int):
+        val = core.real_term(mant * scale)
+        over = mant * scale > _FLOAT_MAX
+    else:
+        val = z3.ToReal(mant) * core.real_term(scale)
+        over = mk(val > core.real_term(_FLOAT_MAX))
+    if over:
+        return core.SymFloat('ninf' if neg else 'inf')
+    return core.SymFloat('fin', -val if neg else val)
+
+
 # ---------------------------------------------------------------------- dual-mode helpers
 # (usable by oracles on both str and SymStr, so the same oracle runs in the engine and in
 #  the pristine replay worker)
